@@ -24,6 +24,8 @@ inductive Err where
   | expectationParse (line : Nat)
   /-- "testcase output expectation(s) given, but no shell expression specified" -/
   | noShellExpression (line : Nat)
+  /-- "exit code given, but no shell expression specified" -/
+  | exitCodeWithoutCommand (line : Nat)
   deriving Repr, DecidableEq, Inhabited
 
 /-- `enum CodeType` -/
@@ -114,6 +116,7 @@ def State.flush {κ} (s : State κ) : State κ :=
 def State.endTestcase {κ} (s : State κ) (lineIndex : Nat) : Except Err (State κ) :=
   if s.command.isEmpty then
     if !s.expectations.isEmpty then .error (.noShellExpression (lineIndex + 1))
+    else if s.exitCode.isSome then .error (.exitCodeWithoutCommand (lineIndex + 1))
     else .ok s
   else
     let t : TestCase κ :=
